@@ -58,6 +58,8 @@ type loopInfo struct {
 
 // Enc is the per-function encoder.
 type Enc struct {
+	heldNamed []Term // mutex addresses named by held(...) in the requires clauses
+	woCache map[*ssa.Alloc]*ssa.Store
 	frozenNames map[string]bool
 	debugSeen map[*ssa.DebugRef]int // execution order of the DebugRef instructions processed so far
 	debugSeq  int
